@@ -114,7 +114,8 @@ def atlas_docs():
     T = {"UM": obj({"m": {"type": "integer"}}, required=["m"]),
          "Trip": obj({"t1": {"oneOf": [LEAVES["date"], {"$ref": REF + "UM"}, NULL]}, "t2": {"type": ["string", "integer", "null"]},
                       "t3": any_of(arr({"$ref": REF + "UM"}), LEAVES["enumstr"], LEAVES["int"]), "t4": {"type": ["array", "null"], "items": LEAVES["date"]},
-                      "t5": any_of(LEAVES["uuid"], LEAVES["bool"], arr(LEAVES["int"]), NULL)}, required=["t1", "t3"])}
+                      "t5": any_of(LEAVES["uuid"], LEAVES["bool"], arr(LEAVES["int"]), NULL),
+                      "t6": {"oneOf": [NULL, arr({}), LEAVES["date"]]}}, required=["t1", "t3"])}
     docs.append(("triples", doc_with(T)))
     # 5. allOf composition
     C = {"Base": obj({"id": {"type": "integer"}, "tag": {"type": "string"}}, required=["id"]),
